@@ -10,6 +10,7 @@ import (
 	"os/exec"
 	"path/filepath"
 	"regexp"
+	"runtime/debug"
 	"runtime/pprof"
 	"sort"
 	"strconv"
@@ -545,7 +546,27 @@ func runWorker(id, shardJSON string) int {
 		pprof.StartCPUProfile(f)
 		defer pprof.StopCPUProfile()
 	}
-	c.Run(w)
+	func() {
+		defer func() {
+			if r := recover(); r != nil {
+				// an uncaught panic escaping from library code is a totality violation of the property under check
+				st := string(debug.Stack())
+				site := "unknown"
+				for _, ln := range strings.Split(st, "\n") {
+					if strings.HasPrefix(ln, "github.com/6tail/lunar-go/") && !strings.Contains(ln, "/vsync.") {
+						site = strings.SplitN(strings.TrimPrefix(ln, "github.com/6tail/lunar-go/"), "(0x", 2)[0]
+						site = strings.TrimSuffix(site, "(...)")
+						break
+					}
+				}
+				if site == "unknown" {
+					panic(r) // not in library code: a harness bug must stay a harness error (exit 2), never a VIOLATION
+				}
+				w.Viol(id+":uncaught-panic:"+site, fmt.Sprintf("library panicked in %s while the check was running: %v", site, r), tail(st, 1500))
+			}
+		}()
+		c.Run(w)
+	}()
 	js, err := json.Marshal(&w.R)
 	if err != nil {
 		fmt.Fprintln(os.Stderr, "marshal", err)
